@@ -107,7 +107,17 @@ def shacl_tuples(text):
     return out, shapes, problems
 
 
+def enumerate_cases(tier):
+    """one extraction with 800 (thorough: also 1 500) shapes: the ShExC text crosses the serializer's 5 000-line buffer, the
+    SHACL graph does not go through it - both must still state the same constraints"""
+    for n in ((800,) if tier == "quick" else (800, 1500)):
+        yield {"g": {"big": n}, "cfg": {}, "target": {"mode": "all"}, "thr": 0}
+
+
 def check(case):
+    if "big" in case["g"]:
+        from . import c18
+        case = dict(case, g=c18.big_graph(case["g"]["big"]))
     kw, triples = common.base_kwargs(case)
     cfg = case["cfg"]
     inst_prop = case["g"]["inst_prop"]
@@ -124,8 +134,13 @@ def check(case):
     shex_text, shacl_text = res
     try:
         doc = shexc.read(shex_text)
-    except shexc.ShExCError:
-        return discard("unparsable-shexc")
+    except shexc.ShExCError as e:
+        try:
+            ht, hshapes, problems = shacl_tuples(shacl_text)
+        except Exception:
+            return discard("unparsable-both")
+        return violation("the SHACL output is readable (%d node shapes) but the ShExC output of the same Shaper is not (%s): %d lines, starts with %r" % (
+            len(hshapes), e, shex_text.count("\n"), shex_text[:200]), (), True)
     st_, sshapes = shex_tuples(doc)
     if st_ is None:
         return discard("or-statement")
